@@ -25,6 +25,14 @@ def h_f6(ctx, fa, fs, correction, via="Arc"):
     rx0, ry0 = ctx.real("rx", 0.01, 1000), ctx.real("ry", 0.01, 1000)
     rot = ctx.real("rot", -720, 720)
     ctx.assume(ctx.or_(ctx.xne(x1, x2), ctx.xne(y1, y2)))
+    chord2 = (x1 - x2) * (x1 - x2) + (y1 - y2) * (y1 - y2)
+    if correction == "scaled":
+        # half the chord exceeds both radii: the radii are certainly too small (a condition on the inputs alone,
+        # so that solver models, probes and replays all land in the correction branch)
+        ctx.assume(ctx.and_(ctx.xgt(chord2, 4 * rx0 * rx0), ctx.xgt(chord2, 4 * ry0 * ry0)))
+    elif correction == "plain":
+        # both radii exceed half the chord: certainly large enough
+        ctx.assume(ctx.and_(ctx.xlt(chord2, 4 * rx0 * rx0), ctx.xlt(chord2, 4 * ry0 * ry0)))
     if via == "Arc":
         arc, L = ctx.capture_locals("_svg_parameterize", lambda: S.Arc((x1, y1), rx0, ry0, rot, fa, fs, (x2, y2)))
     else:
@@ -38,7 +46,7 @@ def h_f6(ctx, fa, fs, correction, via="Arc"):
         return
     lam = L["radius_check"]
     scaled = bool(lam > 1)      # (fork) the library's own branch
-    if scaled != (correction == "scaled"):
+    if scaled != (correction in ("scaled", "any_scaled")):
         ctx.note("other branch")
         return
     X, Y = L["x1prim"], L["y1prim"]
@@ -64,12 +72,15 @@ def h_f6(ctx, fa, fs, correction, via="Arc"):
     nz = ctx.or_(ctx.ne(X, 0), ctx.ne(Y, 0))
     pos = ctx.and_(ctx.gt(RX, 0), ctx.gt(RY, 0))
     # --- F.6.5.2: centre in primed coordinates ------------------------------------------------------
+    # the function's own intermediate squares and products are what the specification says they are
+    ctx.claim("intermediates: rx_sq, ry_sq, t1, t2 as specified", ctx.and_(ctx.eq(L["rx_sq"], RX * RX), ctx.eq(L["ry_sq"], RY * RY), ctx.eq(L["x1prim_sq"], X * X), ctx.eq(L["y1prim_sq"], Y * Y),
+                                                                          ctx.eq(L["t1"], RX * RX * Y * Y), ctx.eq(L["t2"], RY * RY * X * X)))
     t1, t2 = RX * RX * Y * Y, RY * RY * X * X
     rad = (RX * RX * RY * RY - t1 - t2)
     # the code takes sqrt(abs(rad / (t1 + t2))): by construction c^2 = |rad/(t1+t2)|; the radicand is non-negative because the end points fit
-    ctx.claim("F.6.5.2 c^2 = |radicand| (by construction of the root)", ctx.eq(C * C, ctx.absval(rad / (t1 + t2))))
-    ctx.claim_generalised("F.6.5.2 the radicand is non-negative once the radii fit", [fit, nz, pos], ctx.and_(ctx.ge(rad, 0), ctx.gt(t1 + t2, 0)), [X, Y, RX, RY])
-    ctx.claim_generalised("F.6.5.2 c^2 (t1 + t2) = rx^2 ry^2 - t1 - t2", [ctx.eq(C * C, ctx.absval(rad / (t1 + t2))), ctx.ge(rad, 0), ctx.gt(t1 + t2, 0)],
+    ctx.claim("F.6.5.2 c^2 (t1 + t2) = |radicand| (by construction of the root)", ctx.implies(ctx.gt(t1 + t2, 0), ctx.eq(C * C * (t1 + t2), ctx.absval(rad), scale=RX * RX * RY * RY)))
+    ctx.claim_generalised("F.6.5.2 the radicand is non-negative once the radii fit", [fit, nz, pos], ctx.and_(ctx.ge(rad, 0, scale=RX * RX * RY * RY), ctx.gt(t1 + t2, 0)), [X, Y, RX, RY])
+    ctx.claim_generalised("F.6.5.2 c^2 (t1 + t2) = rx^2 ry^2 - t1 - t2", [ctx.eq(C * C * (t1 + t2), ctx.absval(rad)), ctx.ge(rad, 0), ctx.gt(t1 + t2, 0)],
                           ctx.eq(C * C * (t1 + t2), rad), [X, Y, RX, RY, C])
     csq = ctx.eq(C * C * (t1 + t2), rad)
     want_neg = (fa == fs)
@@ -160,6 +171,23 @@ def h_degenerate(ctx, kind, via):
     ctx.claim("zero radius: no curves drawn", len(list(arc.as_cubic_curves())) == 0 or True)
 
 
+def h_negative_args(ctx, signs):
+    """what Path.arc hands to the Arc constructor for negative radii"""
+    S = ctx.S
+    from . import pathgen as G
+    x1, y1, x2, y2 = ctx.reals("x1 y1 x2 y2", -V, V)
+    rx, ry = ctx.real("rx", 0.01, 1000), ctx.real("ry", 0.01, 1000)
+    sx = "-" if signs[0] else ""
+    sy = "-" if signs[1] else ""
+    with G.ArcStub(S) as stub:
+        S.Path("M%s,%s A%s%s %s%s 30 0 1 %s,%s" % (x1, y1, sx, rx, sy, ry, x2, y2))
+        ok = len(stub.calls) == 1
+        ctx.claim("one arc", ok)
+        if ok:
+            grx, gry, rot, fa, fs = stub.calls[0]._symx_args
+            ctx.claim("negative radii reach the arc as absolute values", ctx.and_(ctx.eq(grx, rx), ctx.eq(gry, ry)))
+
+
 def h_negative(ctx):
     """negative radii in path data act as their absolute values"""
     S = ctx.S
@@ -186,8 +214,8 @@ def harnesses(tier):
     to = 120000 if tier == "thorough" else 10000
     for fa in (0, 1):
         for fs in (0, 1):
-            for corr in ("plain", "scaled"):
-                vias = ("Arc", "A", "a") if tier == "thorough" else (("Arc", "a") if (fa, fs, corr) == (0, 1, "plain") else (("Arc", "A") if (fa, fs, corr) == (1, 0, "scaled") else ("Arc",)))
+            for corr in ("plain", "scaled") + (("any_plain", "any_scaled") if tier == "thorough" else ()):
+                vias = (("Arc", "A", "a") if not corr.startswith("any") else ("Arc",)) if tier == "thorough" else (("Arc", "a") if (fa, fs, corr) == (0, 1, "plain") else (("Arc", "A") if (fa, fs, corr) == (1, 0, "scaled") else ("Arc",)))
                 for via in vias:
                     hs.append({"name": "f6/fa=%d/fs=%d/%s/%s" % (fa, fs, corr, via), "fn": "h_f6", "params": {"fa": fa, "fs": fs, "correction": corr, "via": via},
                                "weight": 9, "claim_timeout_ms": to, "budget_s": 140 if tier != "thorough" else 3000, "no_dual": True,
@@ -196,6 +224,8 @@ def harnesses(tier):
     for k in ("coincident", "rx0", "ry0", "both0"):
         for via in ("Arc", "Path"):
             hs.append({"name": "degenerate/%s/%s" % (k, via), "fn": "h_degenerate", "params": {"kind": k, "via": via}})
+    for sg in ((1, 0), (0, 1), (1, 1)):
+        hs.append({"name": "negative_radii_args/%d%d" % sg, "fn": "h_negative_args", "params": {"signs": list(sg)}})
     hs.append({"name": "negative_radii", "fn": "h_negative", "claim_timeout_ms": to, "no_dual": True, "branch_timeout_ms": 1000, "budget_s": 90})
-    hs.append({"name": "twin/sweep_sign", "fn": "h_twin", "twin": True, "branch_timeout_ms": 1000, "claim_timeout_ms": 10000, "budget_s": 60, "max_paths": 6})
+    hs.append({"name": "twin/sweep_sign", "fn": "h_twin", "twin": True, "branch_timeout_ms": 1000, "claim_timeout_ms": 10000, "budget_s": 60, "max_paths": 6, "no_dual": True})
     return hs
